@@ -902,6 +902,35 @@ def str_constants(*modules):
     return out
 
 
+def str_constants_of(*functions):
+    """str constants a set of functions can compare against: their code constants (nested code
+    objects included) plus the str-valued module globals they name"""
+    import types
+    out = set()
+
+    def walk(code, glob):
+        for c in code.co_consts:
+            if isinstance(c, str):
+                out.add(c)
+            elif isinstance(c, (tuple, frozenset)):
+                out.update(x for x in c if isinstance(x, str))
+            elif isinstance(c, types.CodeType):
+                walk(c, glob)
+        for n in code.co_names:
+            v = glob.get(n)
+            if isinstance(v, str):
+                out.add(v)
+            elif isinstance(v, (set, frozenset, tuple, list)):
+                out.update(x for x in v if isinstance(x, str))
+            elif isinstance(v, dict):
+                out.update(x for x in v if isinstance(x, str))
+
+    for f in functions:
+        f = getattr(f, "__func__", f)
+        walk(f.__code__, f.__globals__)
+    return out
+
+
 def sym_len(x):
     if isinstance(x, (SymStr, AbsBytes)):
         return x.sym_len()
